@@ -29,8 +29,14 @@ def atomicqueue : ModelEntries :=
   ("atomicqueue", AtomicQueue.configs.map (fun (n, c) =>
       (n, mkEntryS (AtomicQueue.sys c) AtomicQueue.obsOf (AtomicQueue.final c) (AtomicQueue.safe c))))
 
+/-- tie-only configuration (kept here so that adding it does not touch the model file): one pool
+    thread, two producers that each wait for their item — the only way to reach the blocking
+    `push()` path (a `try_push` fails only while another PRODUCER holds the queue's mutex). -/
+def cfgPool1Wait2 : ThreadPool.Config :=
+  ⟨1, 1, [[.waitAll, .dtor], [], [.enq 0, .waitRan 0], [.enq 1, .waitRan 1]], true⟩
+
 def threadpool : ModelEntries :=
-  ("threadpool", ThreadPool.configs.map (fun (n, c) =>
+  ("threadpool", (ThreadPool.configs ++ [("pool_1_wait2", cfgPool1Wait2)]).map (fun (n, c) =>
       (n, mkEntryS (ThreadPool.sys c) ThreadPool.obsOf (ThreadPool.final c) (ThreadPool.safe c))))
 
 def newthread : ModelEntries :=
